@@ -52,8 +52,9 @@ PROFILES = {
 
 
 class PubSubRun:
-    def __init__(self, choices, prop: str, overrides=None):
+    def __init__(self, choices, prop: str, overrides=None, forced=None):
         self.ch = choices
+        self.forced = forced
         self.prop = prop
         self.prof = dict(PROFILES[prop])
         if overrides:
@@ -274,9 +275,12 @@ class PubSubRun:
         res = self.res
         try:
             self.setup()
-            for _ in range(self.n_ops):
-                self.one_op()
-                self.step_some()
+            if self.forced and self.forced.get("table") == "c14":
+                self.c14_case(self.forced)
+            else:
+                for _ in range(self.n_ops):
+                    self.one_op()
+                    self.step_some()
             self.finish()
             self.oracles()
         except ManagerCrashed as e:
@@ -288,6 +292,45 @@ class PubSubRun:
             self.collect()
             self.w.teardown()
         return res
+
+    def c14_case(self, f):
+        """one cell of the finite C14 table: k subscribers, each writable / not writable / failing on
+        write, one of them possibly a logger; a publisher sends while that holds"""
+        ch = self.ch
+        w = self.w
+        T = 1000
+        self.universe = [T, 1001]
+        pub = self.new_actor("P")
+        pub.open()
+        pub.handshake("v2v1", req_id=20, name=b"pub")
+        subs = []
+        for i, st in enumerate(f["states"]):
+            a = self.new_actor(f"S{i}")
+            a.open()
+            a.handshake("v2v1", req_id=30 + i, logger=(f["logger"] == i), name=b"")
+            a.subscribe(ALL if ch.flag("c14.suball", 1, 4) else T)
+            if ch.flag("c14.notices", 1, 3):
+                a.subscribe(C.MT_FAILED_MESSAGE)
+            subs.append(a)
+        w.quiesce()
+        blocked = {subs[i].conn for i, st in enumerate(f["states"]) if st == 1}
+        for i, st in enumerate(f["states"]):
+            if st == 2:
+                ms = subs[i].sock.peer
+                ms.fault_after = ch.choose("c14.k", [0, 1, 47, 48, 49, 60])
+                ms.fault_kind = ch.choose("c14.fk", ["rst", "fin"])
+                self.res.stats["armed_write_fault"] += 1
+        w.force_writable = lambda rnd, cands: {s.idx for s in cands if s.idx not in blocked}
+        self.t(f"table case: states={f['states']} logger={f['logger']} (0 writable, 1 not writable, 2 write fails)")
+        n = 1 + ch.pick("c14.npub", 2)
+        for _ in range(n):
+            dm = ch.weighted("c14.dest", [(4, 0), (1, 30), (1, 31)])
+            raw = pub.frame(T, payload_for(w.tag_counter + 1, ch.pick("c14.len", 40)), dest_mod=dm)
+            pub.send_raw(raw)
+            self.t(f"P publish type={T} dest={dm}")
+        w.quiesce()
+        self.res.enumerated.setdefault("c14_table", set()).add(f"{f['states']}/{f['logger']}")
+        w.force_writable = None
 
     def finish(self):
         w = self.w
@@ -724,5 +767,17 @@ class PubSubRun:
                     res.add("C14", "logger_not_waited", f"logger conn {c} was not writable and no wait was seen")
 
 
-def run(choices, prop: str, overrides=None) -> RunResult:
-    return PubSubRun(choices, prop, overrides).run()
+def run(choices, prop: str, overrides=None, forced=None) -> RunResult:
+    return PubSubRun(choices, prop, overrides, forced).run()
+
+
+def c14_det_cases(tier):
+    import itertools
+    cases = []
+    for k in (1, 2, 3, 4):
+        for states in itertools.product((0, 1, 2), repeat=k):
+            for logger in [None] + list(range(k)):
+                cases.append(dict(table="c14", states=list(states), logger=logger))
+    if tier == "quick":
+        cases = cases[::4]
+    return cases
